@@ -55,7 +55,8 @@ _mk('UserCallable', 'object')        # abstract callable (user method, middlewar
 for _n in ('UserMethod', 'UserMiddleware', 'UserErrorHandler', 'UserTransport', 'UserJitter', 'UserCallback',
            'UserExcludeFn', 'UserIdGen', 'UserLoader', 'UserDumper', 'UserValidator', 'UserStatusFn'):
     _mk(_n, 'UserCallable')
-for _n in ('UserTracer', 'UserContext', 'UserView', 'UserIdIter', 'ExtHttpRequest', 'ExtHttpResponse', 'ExtWsgiEnviron'):
+for _n in ('UserTracer', 'UserContext', 'UserView', 'UserIdIter', 'ExtHttpRequest', 'ExtHttpResponse', 'ExtWsgiEnviron',
+           'UserSchemaExtractor'):
     _mk(_n, 'UserObject')
 
 
